@@ -4,6 +4,7 @@ CHECK = {
     "harness": "c19_concurrency.cpp",
     "srcs": MONITORING + DIAGNOSTICS,
     "flavours": ["tsan", "asan"],
+    "no_directed_rounding": True,      # the rounding direction is per thread; the scenarios spawn their own threads
     "quick": {"shards": 4, "timeout": 1200},
     "thorough": {"shards": 8, "timeout": 7200},
     "required_categories": ["scenario_SharedVariable", "scenario_SharedOptionalVariable", "scenario_OnlineAverage",
